@@ -28,6 +28,8 @@ macro_rules! exception {
             concat!("exception: ", $fmt, ", exiting")
             $($tt)*
         );
+        #[cfg(lace_verif)]
+        crate::verif::exit(0xEE);
         std::process::exit(0xEE);
     }};
 }
@@ -128,6 +130,8 @@ impl RunEnvironment {
     /// Run with preset memory
     pub fn run(&mut self) {
         loop {
+            #[cfg(lace_verif)]
+            crate::verif::tick();
             if let Some(debugger) = &mut self.debugger {
                 Output::Debugger(Condition::Always, Default::default()).start_new_line();
 
@@ -184,6 +188,8 @@ impl RunEnvironment {
             let instr = self.state.mem[self.state.pc as usize];
             // PC incremented before instruction is performed
             self.state.pc += 1;
+            #[cfg(lace_verif)]
+            crate::verif::on_execute(self.state.pc.wrapping_sub(1), instr);
             self.state.execute(instr);
         }
 
@@ -306,6 +312,8 @@ impl RunState {
                 Halting...\
                 "
             );
+            #[cfg(lace_verif)]
+            crate::verif::exit(1);
             std::process::exit(1);
         }
 
@@ -563,6 +571,14 @@ fn read_char() -> char {
     const REPLACEMENT_CHAR: char = '\u{FFFD}';
 
     let stdin = stdin();
+    #[cfg(lace_verif)]
+    if crate::verif::terminal_armed() {
+        // Simulated interactive terminal: same mapping as below, fed by `term::read_byte`
+        return match term::read_byte() {
+            Some(byte) if byte.is_ascii() => byte as char,
+            _ => REPLACEMENT_CHAR,
+        };
+    }
     let byte = if stdin.is_terminal() {
         term::read_byte()
     } else {
@@ -581,17 +597,72 @@ fn read_char() -> char {
 /// Panics on any other error.
 fn read_byte_stdin(mut stdin: io::Stdin) -> u8 {
     let mut buf = [0; 1];
+    #[cfg(lace_verif)]
+    let mut stdin = crate::verif::StdinSeam(stdin);
     if let Err(err) = stdin.read_exact(&mut buf) {
         if let io::ErrorKind::UnexpectedEof = err.kind() {
             // This should NOT use `exception!`: it is an error with the
             // emulator, not the CPU
             eprintln!("unexpected end of input file stream.");
+            #[cfg(lace_verif)]
+            crate::verif::exit(1);
             std::process::exit(1);
         } else {
             panic!("failed to read character from stdin: {:?}", err)
         }
     }
     buf[0]
+}
+
+/// Accessors for the verification harness.
+#[cfg(lace_verif)]
+impl RunEnvironment {
+    pub fn verif_regs(&self) -> crate::verif::Regs {
+        self.state.verif_regs()
+    }
+    pub fn verif_mem(&self) -> &[u16; MEMORY_MAX] {
+        self.state.verif_mem()
+    }
+    pub fn verif_has_debugger(&self) -> bool {
+        self.debugger.is_some()
+    }
+    /// Breakpoints of the attached debugger: (address, is_predefined) in list order.
+    pub fn verif_breakpoints(&self) -> Option<Vec<(u16, bool)>> {
+        self.debugger.as_ref().map(|debugger| debugger.verif_breakpoints())
+    }
+    /// Overwrite registers, PC and condition code (memory is set with `verif_set_mem`).
+    pub fn verif_set_regs(&mut self, regs: &crate::verif::Regs) {
+        self.state.reg = regs.reg;
+        self.state.pc = regs.pc;
+        self.state.flag = match regs.cc {
+            0b100 => RunFlag::N,
+            0b010 => RunFlag::Z,
+            0b001 => RunFlag::P,
+            _ => RunFlag::Uninit,
+        };
+    }
+    pub fn verif_set_mem(&mut self, addr: u16, value: u16) {
+        *self.state.mem_mut(addr) = value;
+    }
+    /// Execute one instruction word on the current state, as the run loop would after fetch.
+    pub fn verif_execute(&mut self, instr: u16) {
+        self.state.execute(instr);
+    }
+}
+
+#[cfg(lace_verif)]
+impl RunState {
+    pub(crate) fn verif_regs(&self) -> crate::verif::Regs {
+        crate::verif::Regs {
+            reg: self.reg,
+            pc: self.pc,
+            cc: self.flag as u8,
+            orig: self.orig,
+        }
+    }
+    pub(crate) fn verif_mem(&self) -> &[u16; MEMORY_MAX] {
+        &self.mem
+    }
 }
 
 #[cfg(test)]
